@@ -108,29 +108,35 @@ static int check_header(vf_report *rep, uint64_t rows, uint64_t cols,
         varintDimensionPairDimension((size_t)rows, (size_t)cols);
     const unsigned gr = (unsigned)VARINT_DIMENSION_PAIR_WIDTH_ROW_COUNT(dim);
     const unsigned gc = (unsigned)VARINT_DIMENSION_PAIR_WIDTH_COL_COUNT(dim);
-    if (gr != rw || gc != cw) {
+    /* the format supports row widths 0..8 and column widths 1..8; the widths
+     * chosen must be able to hold the counts (the property does not ask for
+     * the narrowest ones: a header that rounds a width up decodes to the same
+     * pair and occupies exactly what it announces) */
+    if (gr < rw || gc < cw || gr > 8 || gc < 1 || gc > 8) {
         return vf_fail(rep, "pair.width", "value",
                        "rows=%llu cols=%llu: dimension 0x%02x decodes to "
-                       "widths (%u,%u); the minimal byte widths are (%u,%u)",
+                       "widths (%u,%u); the counts need at least (%u,%u) bytes "
+                       "and the format has 0..8 / 1..8",
                        U(rows), U(cols), (unsigned)dim, gr, gc, rw, cw);
     }
+    vf_class(gr == rw && gc == cw ? "hdr.widths.minimal" : "hdr.widths.wider");
     {
         varintWidth dr = 0, dc = 0;
         VARINT_DIMENSION_PAIR_DEPAIR(dr, dc, dim);
-        if ((unsigned)dr != rw || (unsigned)dc != cw) {
+        if ((unsigned)dr != gr || (unsigned)dc != gc) {
             return vf_fail(rep, "pair.depair", "value",
                            "rows=%llu cols=%llu: DEPAIR(0x%02x) = (%u,%u), "
-                           "expected (%u,%u)",
+                           "the width accessors say (%u,%u)",
                            U(rows), U(cols), (unsigned)dim, (unsigned)dr,
-                           (unsigned)dc, rw, cw);
+                           (unsigned)dc, gr, gc);
         }
     }
     const unsigned announced = (unsigned)VARINT_DIMENSION_PAIR_BYTE_LENGTH(dim);
-    if (announced != rw + cw) {
+    if (announced != gr + gc) {
         return vf_fail(rep, "pair.bytelen", "length",
                        "rows=%llu cols=%llu: BYTE_LENGTH(0x%02x) = %u, "
                        "expected %u + %u",
-                       U(rows), U(cols), (unsigned)dim, announced, rw, cw);
+                       U(rows), U(cols), (unsigned)dim, announced, gr, gc);
     }
     /* encode twice over complementary backgrounds: the union of the bytes
      * that differ from the background is exactly the set of bytes written */
@@ -167,8 +173,8 @@ static int check_header(vf_report *rep, uint64_t rows, uint64_t cols,
     }
     for (int pass = 0; pass < 2; pass++) {
         const uint8_t *h = arena[pass] + BASE;
-        const uint64_t r2 = rw ? ref_le(h, rw) : 0;
-        const uint64_t c2 = ref_le(h + rw, cw);
+        const uint64_t r2 = gr ? ref_le(h, gr) : 0;
+        const uint64_t c2 = ref_le(h + gr, gc);
         if (r2 != rows || c2 != cols) {
             return vf_fail(rep, "pair.encode", "bytes",
                            "rows=%llu cols=%llu: header bytes read back with "
@@ -204,13 +210,17 @@ static int check_packed(vf_report *rep, uint64_t row, uint64_t col) {
     if (!ok) {
         return 0;
     }
+    /* the level must be one of the supported ones (1..8) and wide enough for
+     * the larger coordinate; the narrowest level is what the pinned code
+     * picks, but a wider one unpacks to the same pair */
     const unsigned lvl = nibbles(mx);
-    if ((unsigned)d != lvl) {
+    if ((unsigned)d < lvl || (unsigned)d > 8) {
         return vf_fail(rep, "packed.level", "value",
-                       "Pack(%llu,%llu) chose level %u; documented level for "
-                       "max coordinate %llu is %u",
+                       "Pack(%llu,%llu) chose level %u; the max coordinate "
+                       "%llu needs level %u and levels above 8 are unsupported",
                        U(row), U(col), (unsigned)d, U(mx), lvl);
     }
+    vf_class((unsigned)d == lvl ? "packed.level.minimal" : "packed.level.wider");
     size_t r2 = ~(size_t)row, c2 = ~(size_t)col;
     varintDimensionUnpack(&r2, &c2, packed, d);
     if (r2 != row || c2 != col) {
@@ -280,7 +290,7 @@ typedef struct span {
 typedef struct mx {
     vf_report *rep;
     uint64_t rowsDecl, colsDecl;
-    unsigned H; /* header bytes (minimal widths, computed here) */
+    unsigned H; /* header bytes, as announced by varintDimensionPairDimension */
     ckind kind;
     unsigned w; /* entry bytes, 0 for bits */
     int sparse;
@@ -503,7 +513,10 @@ static int mx_open(mx *m, vf_report *rep, uint64_t rowsDecl, uint64_t colsDecl,
     m->rep = rep;
     m->rowsDecl = rowsDecl;
     m->colsDecl = colsDecl;
-    m->H = minw(rowsDecl) + minw(colsDecl);
+    /* header length as the library announces it for this shape (the buffer a
+     * caller allocates is sized from the same macro) */
+    m->H = (unsigned)VARINT_DIMENSION_PAIR_BYTE_LENGTH(
+        varintDimensionPairDimension((size_t)rowsDecl, (size_t)colsDecl));
     m->kind = kind;
     m->w = kind == K_BIT   ? 0
            : kind == K_UNS ? w
@@ -601,6 +614,14 @@ static int mx_open(mx *m, vf_report *rep, uint64_t rowsDecl, uint64_t colsDecl,
         vf_fail(rep, "matrix.encode", "canary",
                 "header of (%llu,%llu) written past a %zu-byte buffer",
                 U(rowsDecl), U(colsDecl), m->total);
+        return 1;
+    }
+    if ((unsigned)VARINT_DIMENSION_PAIR_BYTE_LENGTH(m->dim) != m->H) {
+        vf_fail(rep, "pair.encode", "value",
+                "rows=%llu cols=%llu: PairEncode returned 0x%02x (%u header "
+                "bytes), PairDimension announced %u",
+                U(rowsDecl), U(colsDecl), (unsigned)m->dim,
+                (unsigned)VARINT_DIMENSION_PAIR_BYTE_LENGTH(m->dim), m->H);
         return 1;
     }
     for (unsigned i = 0; i < m->nsp; i++) {
